@@ -20,6 +20,9 @@ typedef struct {
     volatile int exited;
     volatile int epfd;
     volatile uint64_t parks;
+    volatile int kind;           /* 0: at epoll_wait, 1: about to lock the mutex at addr, 2: start of a harness thread */
+    const void* volatile addr;
+    volatile int fine;           /* this thread also parks at mutex acquisitions */
 } ng_actor;
 
 static ng_actor g_actors[NG_MAX_ACTORS];
@@ -75,12 +78,36 @@ void ng_thread_end(void)
     t_actor = -1;
 }
 
+static void park_common(ng_actor* a);
+
 void ng_park(int epfd)
 {
     if (t_actor < 0 || !ng_active())
         return;
     ng_actor* a = &g_actors[t_actor];
     a->epfd     = epfd;
+    a->kind     = 0;
+    park_common(a);
+}
+
+void ng_park_at(int kind, const void* addr)
+{
+    if (t_actor < 0 || !ng_active())
+        return;
+    ng_actor* a = &g_actors[t_actor];
+    a->kind     = kind;
+    a->addr     = addr;
+    park_common(a);
+}
+
+int ng_kind(int id) { return g_actors[id].kind; }
+const void* ng_addr(int id) { return g_actors[id].addr; }
+void ng_set_fine(int id, int on) { g_actors[id].fine = on; }
+int ng_is_fine(void) { return t_actor >= 0 && g_actors[t_actor].fine; }
+int ng_mutex_free(const void* m) { return __atomic_load_n((const int*)m, __ATOMIC_RELAXED) == 0; }
+
+static void park_common(ng_actor* a)
+{
     a->parks++;
     __atomic_store_n(&a->parked, 1, __ATOMIC_RELEASE);
     __atomic_store_n(&g_event, 1, __ATOMIC_RELEASE);
